@@ -315,10 +315,12 @@ def fd_vector_stream(ctx, sizes, reps):
     cases, lines = [], []
     for m, p, n in itertools.product(METHODS, PADS, sizes):
         for rep in range(reps):
-            cplx = rng.random() < 0.6
+            cplx = rng.random() < 0.6 or (p == 'constant' and rep == 0 and n in (2, 5))
             f = rand_int_array(rng, (n,), cplx)
             dx = rng.choice([1.0, 0.5, 2.0, 0.25])
-            if cplx:
+            if cplx and p == 'constant':
+                c = rng.choice([1 + 2j, -3j])
+            elif cplx:
                 c = rng.choice([0, 1 + 2j, -3j, 2])
             else:
                 c = rng.choice([0, 1, -2, 0.5])
@@ -433,6 +435,362 @@ def tables_stream(ctx):
         ctx.violation('_ADJ tables', 'unreadable: {!r}'.format(e), {'kind': 'tables'})
 
 
+# ---------------------------------------------------------------------------
+# operator classes on uniform_discr spaces
+
+KINDS = ['pd', 'grad', 'div', 'lap']
+LAP_REJECTED = ('order1', 'order1_adjoint', 'order2', 'order2_adjoint')
+
+
+def cmul(p, q):
+    return (p[0] * q[0] - p[1] * q[1], p[0] * q[1] + p[1] * q[0])
+
+
+def conj(p):
+    return (p[0], -p[1])
+
+
+class XArr(object):
+    """exact N-d array: dict multi-index -> (re, im)"""
+
+    def __init__(self, shape, flat):
+        self.shape = tuple(shape)
+        self.v = dict(zip(np.ndindex(*self.shape), flat))
+
+    @classmethod
+    def of(cls, arr):
+        arr = np.asarray(arr)
+        return cls(arr.shape, exact(arr))
+
+    def flat(self):
+        return [self.v[i] for i in np.ndindex(*self.shape)]
+
+    def combine(self, other, a, b):
+        return XArr(self.shape, [add(scal(a, u), scal(b, v))
+                                 for u, v in zip(self.flat(), other.flat())])
+
+    def along(self, axis, fun):
+        """apply fun(list)->list on every line along axis"""
+        out = XArr(self.shape, [Z] * len(self.v))
+        rest = [range(n) if a != axis else [0] for a, n in enumerate(self.shape)]
+        for base in itertools.product(*rest):
+            idxs = [tuple(k if a == axis else base[a] for a in range(len(self.shape)))
+                    for k in range(self.shape[axis])]
+            res = fun([self.v[i] for i in idxs])
+            for i, r in zip(idxs, res):
+                out.v[i] = r
+        return out
+
+
+def pair(X, Y):
+    """sum X * conj(Y) over lists of XArr"""
+    acc = Z
+    for x, y in zip(X, Y):
+        for u, v in zip(x.flat(), y.flat()):
+            acc = add(acc, cmul(u, conj(v)))
+    return acc
+
+
+def ref_op(kind, m, p, c, sides, X, axis=None):
+    """reference result (list of XArr) of the operator on exact input (list of XArr)"""
+    def ax(x, a, mm, dx):
+        return x.along(a, lambda line: ref_apply(line, mm, p, c if p == 'constant' else Z, dx))
+    nd = len(sides)
+    if kind == 'pd':
+        return [ax(X[0], axis, m, sides[axis])]
+    if kind == 'grad':
+        return [ax(X[0], a, m, sides[a]) for a in range(nd)]
+    if kind == 'div':
+        acc = None
+        for a in range(nd):
+            t = ax(X[a], a, m, sides[a])
+            acc = t if acc is None else acc.combine(t, 1, 1)
+        return [acc]
+    if kind == 'lap':
+        acc = None
+        for a in range(nd):
+            t = ax(X[0], a, 'forward', sides[a] ** 2).combine(
+                ax(X[0], a, 'backward', sides[a] ** 2), 1, -1)
+            acc = t if acc is None else acc.combine(t, 1, 1)
+        return [acc]
+    raise KeyError(kind)
+
+
+def ref_op_outcome(kind, m, p, shape, axis):
+    if kind == 'lap' and p in LAP_REJECTED:
+        return 'err:value'
+    axes = [axis] if kind == 'pd' else range(len(shape))
+    if any(shape[a] < REF_NMIN.get(p, 2) for a in axes):
+        return 'err'
+    return 'ok'
+
+
+def build_op(kind, space, m, p, c, axis):
+    import odl
+    if kind == 'pd':
+        return odl.PartialDerivative(space, axis, method=m, pad_mode=p, pad_const=c)
+    if kind == 'grad':
+        return odl.Gradient(space, method=m, pad_mode=p, pad_const=c)
+    if kind == 'div':
+        return odl.Divergence(range=space, method=m, pad_mode=p, pad_const=c)
+    return odl.Laplacian(space, pad_mode=p, pad_const=c)
+
+
+def to_elem(sp, arrs):
+    import odl
+    if isinstance(sp, odl.ProductSpace):
+        return sp.element([np.array(a) for a in arrs])
+    return sp.element(np.array(arrs[0]))
+
+
+def from_elem(x):
+    import odl
+    if isinstance(x.space, odl.ProductSpace):
+        return [XArr.of(xi.asarray()) for xi in x]
+    return [XArr.of(x.asarray())]
+
+
+def apply_op(op, arrs, use_out, rng):
+    """real code: op(x) -> ('ok', [XArr]) or (err, None)"""
+    try:
+        x = to_elem(op.domain, arrs)
+        if use_out:
+            out = op.range.element()
+            import odl
+            parts = list(out) if isinstance(op.range, odl.ProductSpace) else [out]
+            for q in parts:
+                q.asarray()[...] = 977.0  # finite garbage (NaN + set_zero is C03's topic)
+            r = op(x, out=out)
+            if r is not out:
+                return 'err:did not return out', None
+        else:
+            r = op(x)
+        return 'ok', from_elem(r)
+    except ValueError as e:
+        if 'non-finite' in str(e):
+            return 'err:nonfinite-output', None
+        return 'err:value', None
+    except Exception as e:  # noqa
+        return errname(e), None
+
+
+def describe_instance(op):
+    """(neg, kind, method, pad, c) of an operator object returned by .adjoint/.derivative"""
+    import odl
+    neg = False
+    if isinstance(op, odl.OperatorLeftScalarMult):
+        if op.scalar != -1:
+            return 'unexpected scalar {}'.format(op.scalar)
+        neg, op = True, op.operator
+    names = {odl.PartialDerivative: 'pd', odl.Gradient: 'grad', odl.Divergence: 'div',
+             odl.Laplacian: 'lap'}
+    if type(op) not in names:
+        return 'unexpected class ' + type(op).__name__
+    kind = names[type(op)]
+    return (int(neg), kind, getattr(op, 'method', None), op.pad_mode, cval(complex(op.pad_const)
+            if np.iscomplexobj(op.pad_const) else float(op.pad_const)))
+
+
+def nd_line(kind, m, p, shape, sides, c, X, axis):
+    return 'nd op={} method={} pad={} ndim={} shape={} axis={} dx={} c={} f={}'.format(
+        kind, m, p, len(shape), ','.join(str(n) for n in shape), axis if axis is not None else 0,
+        ','.join(fs(s) for s in sides), cs(c), ';'.join(cl(x.flat()) for x in X))
+
+
+def op_plans(ctx, reps):
+    rng = ctx.rng
+    for kind, p, nd in itertools.product(KINDS, PADS, (1, 2, 3)):
+        for m in (METHODS if kind != 'lap' else ['forward']):
+            for rep in range(reps):
+                small = rng.random() < 0.5
+                shape = tuple(rng.choice([2, 3, 4] if small else [2, 3, 4, 5, 6, 7])
+                              for _ in range(nd))
+                if nd == 3 and int(np.prod(shape)) > 120:
+                    shape = tuple(min(n, 4) for n in shape)
+                sides = tuple(rng.choice([1.0, 0.5, 2.0]) for _ in range(nd))
+                cplx = rng.random() < 0.3
+                if p == 'constant':
+                    c = rng.choice([0, 0, 2, -1.5] if not cplx else [0, 0, 1 + 2j, -3])
+                else:
+                    c = rng.choice([0, 0, 0, 3])
+                axis = rng.randrange(nd) if kind == 'pd' else None
+                yield dict(kind=kind, method=m, pad=p, ndim=nd, shape=shape, sides=sides,
+                           cplx=cplx, c=c, axis=axis, use_out=rng.random() < 0.4,
+                           vseed=rng.getrandbits(32))
+
+
+def run_op_case(pl):
+    """everything on the real code for one plan; returns records for the differ"""
+    import odl
+    import random
+    r = random.Random(pl['vseed'])
+    kind, m, p, shape, sides = pl['kind'], pl['method'], pl['pad'], pl['shape'], pl['sides']
+    nd, cplx, c, axis = pl['ndim'], pl['cplx'], pl['c'], pl['axis']
+    desc = {k: (str(v) if k in ('c', 'shape', 'sides') else v) for k, v in pl.items()}
+    key = '{} method={} pad_mode={} shape={} dtype={} pad_const={}{}'.format(
+        {'pd': 'PartialDerivative', 'grad': 'Gradient', 'div': 'Divergence',
+         'lap': 'Laplacian'}[kind], m if kind != 'lap' else '-', p, shape,
+        'complex' if cplx else 'float', c, '' if axis is None else ' axis={}'.format(axis))
+    rec = dict(desc=desc, key=key, lines=[], checks=[], problems=[], sig=None)
+    try:
+        space = odl.uniform_discr([0] * nd, [s * n for s, n in zip(sides, shape)], shape,
+                                  dtype=complex if cplx else float)
+        if tuple(float(v) for v in space.cell_sides) != tuple(sides):
+            return None
+    except Exception as e:  # noqa
+        rec['problems'].append('uniform_discr failed: {!r}'.format(e))
+        return rec
+    cc = cval(c)
+    want = ref_op_outcome(kind, m, p, shape, axis)
+    try:
+        op = build_op(kind, space, m, p, c, axis)
+    except ValueError:
+        op = None
+    except Exception as e:  # noqa
+        rec['problems'].append('constructor raised {!r}'.format(e))
+        return rec
+    n_in = nd if kind == 'div' else 1
+    n_out = nd if kind == 'grad' else 1
+    xs = [rand_int_array(r, shape, cplx) for _ in range(n_in)]
+    X = [XArr.of(a) for a in xs]
+    line = nd_line(kind, m, p, shape, sides, cc, X, axis)
+    if op is None:
+        rec['lines'].append((line, 'call', 'err:value', None))
+        if want != 'err:value':
+            rec['problems'].append('constructor raised ValueError')
+        return rec
+    # --- call
+    st, R = apply_op(op, xs, pl['use_out'], r)
+    rec['lines'].append((line, 'call', st, R))
+    if want == 'ok':
+        exp = ref_op(kind, m, p, cc, [Fraction(s) for s in sides], X, axis)
+        if st != 'ok':
+            rec['problems'].append('call raised/failed: ' + st)
+        else:
+            for comp, (a, b) in enumerate(zip(R, exp)):
+                if a.flat() != b.flat():
+                    i = [i for i in a.v if a.v[i] != b.v[i]][0]
+                    rec['problems'].append(
+                        'x={} : result component {} at index {} is {} but the reference stencil '
+                        'gives {}'.format([cl(x.flat()) for x in X], comp, i, cs(a.v[i]),
+                                          cs(b.v[i])))
+                    break
+        if any(v != Z for e in exp for v in e.flat()):
+            rec['sig'] = (kind, m, p, nd, 'small' if max(shape) <= 4 else 'large', cplx,
+                          c != 0)
+    elif st == 'ok':
+        rec['problems'].append('axis too short / mode refused, but a result was returned')
+    if st != 'ok' or want != 'ok':
+        return rec
+    # --- derivative: op(x + h) - op(x) == op.derivative(x)(h); instance attributes
+    hs = [rand_int_array(r, shape, cplx) for _ in range(n_in)]
+    H = [XArr.of(a) for a in hs]
+    try:
+        dop = op.derivative(to_elem(op.domain, xs))
+        inst = describe_instance(dop)
+        st2, R2 = apply_op(op, [a + b for a, b in zip(xs, hs)], False, r)
+        st3, R3 = apply_op(dop, hs, False, r)
+        if st2 != 'ok' or st3 != 'ok':
+            rec['problems'].append('derivative evaluation failed: {} {}'.format(st2, st3))
+        else:
+            for a, b, d in zip(R2, R, R3):
+                if a.combine(b, 1, -1).flat() != d.flat():
+                    rec['problems'].append('op(x+h) - op(x) != op.derivative(x)(h) for x={}, h={}'
+                                           .format([cl(x.flat()) for x in X],
+                                                   [cl(x.flat()) for x in H]))
+                    break
+            zero_variant = ref_op(kind, m, p, Z, [Fraction(s) for s in sides], H, axis)
+            if [d.flat() for d in R3] != [z.flat() for z in zero_variant]:
+                rec['problems'].append('derivative is not the zero-padding operator')
+    except Exception as e:  # noqa
+        inst = 'err:' + type(e).__name__
+        rec['problems'].append('derivative raised {!r}'.format(e))
+    rec['checks'].append(('cfg act=derivative kind={} method={} pad={} c={}'.format(
+        kind, m, p, cs(cc)), inst))
+    # --- adjoint
+    linear = not (p == 'constant' and c != 0)
+    try:
+        aop = op.adjoint
+        ainst = describe_instance(aop)
+    except ValueError:
+        aop, ainst = None, 'err:value'
+    except Exception as e:  # noqa
+        aop, ainst = None, 'err:' + type(e).__name__
+        rec['problems'].append('adjoint raised {!r}'.format(e))
+    rec['checks'].append(('cfg act=adjoint kind={} method={} pad={} c={}'.format(
+        kind, m, p, cs(cc)), ainst))
+    if kind == 'lap' and not linear:
+        return rec  # Laplacian reports linear=True for the affine variant; outside C13
+    if linear and aop is None:
+        rec['problems'].append('linear operator has no adjoint')
+    if not linear and aop is not None:
+        rec['problems'].append('affine operator returned an adjoint')
+    if aop is not None and linear and isinstance(ainst, tuple):
+        ys = [rand_int_array(r, shape, cplx) for _ in range(n_out)]
+        Y = [XArr.of(a) for a in ys]
+        st4, R4 = apply_op(aop, ys, False, r)
+        if st4 != 'ok':
+            rec['problems'].append('adjoint call failed: ' + st4)
+        else:
+            lhs, rhs = pair(R, Y), pair(X, R4)
+            if lhs != rhs:
+                rec['problems'].append(
+                    '<A x, y> = {} but <x, A^* y> = {} for x={}, y={} (adjoint is not the '
+                    'transpose)'.format(cs(lhs), cs(rhs), [cl(x.flat()) for x in X],
+                                        [cl(y.flat()) for y in Y]))
+            # the model of the returned instance on the same input (sign applied here)
+            neg, k2, m2, p2, c2 = ainst
+            if k2 in KINDS and (m2 in METHODS or k2 == 'lap') and p2 in PADS:
+                aline = nd_line(k2, m2 or 'forward', p2, shape, sides, c2, Y,
+                                axis if k2 == 'pd' else None)
+                Rs = [XArr(a.shape, [scal(-1, v) for v in a.flat()]) for a in R4] if neg else R4
+                rec['lines'].append((aline, 'adjoint-call', 'ok', Rs))
+    return rec
+
+
+def ops_stream(ctx, reps, report=True):
+    recs = [r for r in (run_op_case(pl) for pl in op_plans(ctx, reps)) if r is not None]
+    lines = [l[0] for r in recs for l in r['lines']] + [c[0] for r in recs for c in r['checks']]
+    outs = core.run_driver('C13', lines)
+    k = 0
+    n_lines = sum(len(r['lines']) for r in recs)
+    kc = n_lines
+    for r in recs:
+        ctx.case(r['sig'], sample=r['desc'] if len(ctx.samples) < 12 and r['sig'] else None)
+        ctx.hit('op/{}/{}'.format(r['desc']['kind'], r['desc']['pad']))
+        for pr in r['problems'][:2]:
+            ctx.violation(r['key'], pr, dict(r['desc'], kind2='op'))
+        for (line, what, st, R) in r['lines']:
+            ans = outs[k]
+            k += 1
+            if st != 'ok':
+                ctx.err(st)
+                if ans != st and not (ans.startswith('err') and st.startswith('err:')
+                                      and st in ('err:value', 'err:index')
+                                      and ans in ('err:value', 'err:index')
+                                      and r['desc']['pad'] == 'order2_adjoint'):
+                    ctx.disagree(dict(r['desc'], what=what), st, ans)
+                continue
+            if not ans.startswith('ok r='):
+                ctx.disagree(dict(r['desc'], what=what), 'ok', ans)
+                continue
+            mv = [parse_cl(t) for t in ans[len('ok r='):].split(';')]
+            if mv != [a.flat() for a in R]:
+                ctx.disagree(dict(r['desc'], what=what),
+                             ';'.join(cl(a.flat()) for a in R)[:600], ans[:600])
+        for (line, inst) in r['checks']:
+            ans = outs[kc]
+            kc += 1
+            if isinstance(inst, tuple):
+                neg, kind, m, p, c = inst
+                m = m if m is not None else line.split('method=')[1].split()[0]
+                want = 'ok neg={} kind={} method={} pad={} c={}'.format(neg, kind, m, p, cs(c))
+            else:
+                want = inst
+            if ans != want:
+                ctx.disagree(dict(r['desc'], what=line), want, ans)
+
+
 def regenerate(ctx):
     changed = extract_fd.regenerate()
     return [('extract(diff_ops.py -> Gen/FiniteDiff.lean)', True,
@@ -445,6 +803,7 @@ def run(ctx):
     fd_matrix_stream(ctx, sizes, EXACT_DXC if not ctx.quick else EXACT_DXC[:2])
     fd_vector_stream(ctx, [2, 3, 4, 5, 6, 8, 11], 1 if ctx.quick else 4)
     fd_general_stream(ctx, [2, 3, 5, 7] if ctx.quick else [2, 3, 4, 5, 6, 7, 10])
+    ops_stream(ctx, 1 if ctx.quick else 6)
     want = {'fd/{}/{}/n={}'.format(m, p, nclass(n)) for m in METHODS for p in PADS
             for n in range(2, 10) if n >= REF_NMIN.get(p, 2)}
     unhit = sorted(want - set(ctx.branches))
@@ -456,6 +815,7 @@ def search(ctx, broken):
     look harder on the real code with the oracle."""
     fd_matrix_stream(ctx, list(range(1, 14)), EXACT_DXC)
     fd_vector_stream(ctx, list(range(2, 14)), 6)
+    ops_stream(ctx, 8)
 
 
 def replay(ctx, case):
